@@ -38,16 +38,16 @@ Ltac wsimpl :=
      FUEL_SEM String.eqb Ascii.eqb Bool.eqb List.app List.combine List.length Nat.eqb negb fst snd].
 
 (* one unfolding of a loop, for any fuel *)
-Lemma exec_while ft f en tr c body r :
-  exec ft (S f) en tr (SWhile c body :: r) =
+Lemma exec_while ft f en tr sc c body r :
+  exec ft (S f) en tr sc (SWhile c body :: r) =
   match eval ft FUEL_SEM en c with
   | Ret (VB true) =>
-      match exec ft f en tr body with
-      | Some (en', tr') => exec ft f en' tr' (SWhile c body :: r)
-      | None => None
+      match exec ft f en tr sc body with
+      | XOk en' tr' sc' => exec ft f en' tr' sc' (SWhile c body :: r)
+      | other => other
       end
-  | Ret (VB false) => exec ft f en tr r
-  | _ => None
+  | Ret (VB false) => exec ft f en tr sc r
+  | _ => XStuck
   end.
 Proof. reflexivity. Qed.
 
@@ -71,24 +71,24 @@ Proof.
   intros H. apply N.eqb_neq in H. unfold walk_cond. wsimpl. rewrite H. reflexivity.
 Qed.
 
-Lemma body_on_chunk k c cs f0 tr f :
-  exec src_fns (S (S (S (S f)))) (walk_env k (c :: cs) f0) tr walk_loop_body
-  = Some (walk_env k cs (footer_val k (c :: cs)), List.app tr [freed k c]).
+Lemma body_on_chunk k c cs f0 tr sc f :
+  exec src_fns (S (S (S (S f)))) (walk_env k (c :: cs) f0) tr sc walk_loop_body
+  = XOk (walk_env k cs (footer_val k (c :: cs))) (List.app tr [freed k c]) sc.
 Proof. unfold walk_loop_body. wsimpl. reflexivity. Qed.
 
 Definition wfuel (n extra : nat) : nat := S (S (S (S (S (S (n + extra)))))).
 
 Theorem walk_frees_the_list k cs : Forall (fun c => c_foot c <> k_eaddr k) cs ->
-  forall extra tr f0,
+  forall extra tr sc f0,
   exists f1,
-    exec src_fns (wfuel (List.length cs) extra) (walk_env k cs f0) tr walk_body
-    = Some (walk_env k [] f1, List.app tr (map (freed k) cs)).
+    exec src_fns (wfuel (List.length cs) extra) (walk_env k cs f0) tr sc walk_body
+    = XOk (walk_env k [] f1) (List.app tr (map (freed k) cs)) sc.
 Proof.
   rewrite walk_body_is.
-  intros Hne. induction Hne as [|c cs Hc _ IH]; intros extra tr f0.
+  intros Hne. induction Hne as [|c cs Hc _ IH]; intros extra tr sc f0.
   - exists f0. unfold wfuel. rewrite exec_while, cond_on_sentinel.
     cbn [map]. rewrite app_nil_r. reflexivity.
-  - destruct (IH extra (List.app tr [freed k c]) (footer_val k (c :: cs))) as [f1 E].
+  - destruct (IH extra (List.app tr [freed k c]) sc (footer_val k (c :: cs))) as [f1 E].
     exists f1.
     change (wfuel (List.length (c :: cs)) extra) with (S (wfuel (List.length cs) extra)).
     rewrite exec_while, (cond_on_chunk k c cs f0 Hc).
@@ -122,7 +122,7 @@ Qed.
 Example walk_ex :
   let k := actual 1 1000 in
   let cs := [mkChunk 9000 960 16 9100 0; mkChunk 5000 448 16 5448 0] in
-  exec src_fns (wfuel 2 0) (walk_env k cs VUnit) [] walk_body
-  = Some (walk_env k [] (footer_val k [mkChunk 5000 448 16 5448 0]),
-          [("dealloc", [VN 9000; vlayout (mkLayout 1008 16)]); ("dealloc", [VN 5000; vlayout (mkLayout 496 16)])]).
+  exec src_fns (wfuel 2 0) (walk_env k cs VUnit) [] [] walk_body
+  = XOk (walk_env k [] (footer_val k [mkChunk 5000 448 16 5448 0]))
+        [("dealloc", [VN 9000; vlayout (mkLayout 1008 16)]); ("dealloc", [VN 5000; vlayout (mkLayout 496 16)])] [].
 Proof. vm_compute. reflexivity. Qed.
